@@ -8,7 +8,8 @@ TRUSTED = ['Ed25519 (crypto/ed25519) and SHA-512 are parameters of the theorems;
 ASSUMPTIONS = ['attribute names are valid UTF-8 (the only name used by the tools is "ed25519PublicKey")']
 RULE = ('staged: for files (random content whose last 8 bytes state the length, wrong / too large / negative trailers, files shorter than 8 bytes, already signed files) x Ed25519 key pairs from seeds x extra attribute maps '
         '(0-3 keys, every permutation) x matching / non-matching public key x failing strategy x sequences of 1..4 signing operations: model computes data-to-be-signed, harness signs it, compared ops ib.dts, ib.signadd '
-        '(resulting block state and CBOR bytes), ib.cbor, ib.obtain, ib.id, sha512; every signature in an emitted block is re-verified by oracle.edverify; distinct = op lines')
+        '(resulting block state and CBOR bytes), ib.cbor, ib.obtain, ib.id, sha512; every signature in an emitted block is re-verified by oracle.edverify; distinct = op lines; '
+        'near-miss family: public keys that are not Ed25519 keys (lengths 0, 1, 16, 31, 33, 63, 64, 65, 96, stray byte before / after, one byte cut) through ib.signadd.anykey and ib.libverify')
 EXHAUSTIVE = {}
 
 agree = Base.agree; nontrivial = Base.nontrivial; signature = Base.signature; explain = Base.explain
@@ -25,6 +26,40 @@ KEYNAME = b'ed25519PublicKey'
 
 def attrs_str(a):
     return '&'.join(f'{hexs(k)}={hexs(v)}' for k, v in a) or '.'
+
+
+def badkey_stage(ctx, rng, seeds, pks, states):
+    """The public key about to be recorded is not an Ed25519 key at all: every length class around 32 (empty, 1, 16, 31, 33, 63, 64 = the
+    private key / the key twice, 65, 96, the key as hex text), a stray byte before / after, one byte cut at either end, next to the two
+    controls (matching key, other key of the right length). No signature verifies under such a key (oracle.edverify answers 0), so the
+    signer must refuse and leave the block as it was (crypto/ed25519 panics on such a key; the harness op counts a panic that leaves the
+    block untouched as a refusal). On an empty block and on one that already carries signatures; key handed to SignAndAddNewSignature
+    recorded in the attributes (as SignWithIntegrityBlock does) or only verified against; the exported VerifyEd25519Signature directly."""
+    seed, pk, other = seeds[0], unhex(pks[0]), unhex(pks[1])
+    keys = [pk, other, pk + b'\n', pk + b'\x00', b'\x00' + pk, pk[:31], pk[1:], b'', pk[:1], pk[:16], unhex(seed) + pk, pk + pk, (pk + pk)[:63], pk + pk + b'\x00',
+            pk.hex().encode(), pk * 3, bytes(31), bytes(33), pk + other[:1]]
+    sts = [f'{MAGIC}:{VER}:.'] + [s for s in states if not s.endswith(':.')][:1]
+    hash_ = hashlib.sha512(b'bad-key family').hexdigest()
+    jobs = []
+    for st in sts:
+        for i, k in enumerate(keys):
+            jobs.append((st, k, [(KEYNAME, k)]))
+            if i % 3 == 2:       # the attributes name the right key, the key checked against is the malformed one
+                jobs.append((st, k, [(b'note', b'x'), (KEYNAME, pk)]))
+    g, m = ctx.both([f'ib.dts {hash_} {st} {attrs_str(a)}' for st, k, a in jobs])
+    msgs = [x.split(' ')[1] if x and x.startswith('ok ') else None for x in m]
+    jobs = [(j, mm) for j, mm in zip(jobs, msgs) if mm]
+    sigs = ctx.go([f'oracle.edsign {seed} {mm}' for j, mm in jobs])
+    vds = ctx.go([f'oracle.edverify {hexs(k)} {mm} {sg}' for ((st, k, a), mm), sg in zip(jobs, sigs)])
+    ops = []
+    for n_, (((st, k, a), mm), sg, vd) in enumerate(zip(jobs, sigs, vds)):
+        if not sg or vd not in ('0', '1'): continue
+        ops.append(f'ib.signadd.anykey {hash_} {st} {hexs(k)} {attrs_str(a)} {sg} {vd}')
+        ops.append(f'ib.libverify {hexs(k)} {mm} {sg} {vd}')
+        if n_ % 5 == 0:      # the strategy fails / returns something that is not a signature, AND the key is malformed
+            ops.append(f'ib.signadd.anykey {hash_} {st} {hexs(k)} {attrs_str(a)} fail 0')
+            ops.append(f'ib.signadd.anykey {hash_} {st} {hexs(k)} {attrs_str(a)} {sg[:-2]} 0')
+    ctx.both(ops)
 
 
 def run(ctx):
@@ -123,6 +158,7 @@ def run(ctx):
     for n_ in (0, 1, 8, 50, 500):          # the hash of the file as computed from a handle something has already read n bytes from
         ops.append(f'ib.sha512.handle {hexs(rbytes(rng, 200))} {n_}')
     ctx.both(ops)
+    badkey_stage(ctx, rng, seeds, pks, [c['state'] for c in chains])
     # the command-line path (cmd/sign-bundle integrity-block): real binary, reused / pre-existing output files
     import c20
     c20.ib_cli_stage(ctx, rng, 6 if not thorough else 16)
